@@ -61,8 +61,14 @@ def run_action_open(cfg: OpenActionConfig) -> int:
             or is_cite_key_link
         ):
             all_targets_in_line.append(_trim_to_brackets(word))
+            # A note's own ZID stands in front of its body: once a link has
+            # been seen, every ZID that follows is a reference.
+            found_primary_zid = True
         elif is_targetable_zid:
             all_targets_in_line.append(zid_word)
+            # The same goes for a ZID at the very start of a line (e.g. a
+            # continuation line): the ZIDs after it are references as well.
+            found_primary_zid = True
         elif zdt.is_zid(zid_word):
             # This is the line's primary ZID; every ZID after it is a target.
             found_primary_zid = True
